@@ -341,7 +341,7 @@ class Body:
         if "static" in op:
             return ("static", norm_name(op["static"]))
         if "promoted" in op:
-            pb = self.prog.promoted_body(self, op["promoted"])
+            pb = self.prog.promoted_body(self, op["promoted"], op.get("promoted_owner"))
             if pb is not None:
                 return pb.promoted_value()
             return ("unknown", "promoted")
@@ -351,7 +351,11 @@ class Body:
                 return ("const", "bool", int(op["int"]))
             v = int(op["int"])
             if "def" in op:
-                return ("const", ty, v, norm_name(op["def"]))
+                dn = norm_name(op["def"])
+                kc = self.prog.known_consts
+                if kc is not None and dn not in kc:
+                    return ("const", ty, v)       # a constant the rules do not know by name (hoisted literal): its value is what matters
+                return ("const", ty, v, dn)
             return ("const", ty, v)
         if "def" in op:
             return ("cdef", norm_name(op["def"]))
@@ -555,7 +559,30 @@ class Body:
             callee = self.rec_operand(t["fnop"], bb, "T", depth + 1)
             return simplify_call("<indirect>", (callee,) + args)
         path = norm_name(f["resolved"] or f["path"])
-        return simplify_call(path, args, norm_name(f["path"]))
+        tp = norm_name(f["path"])
+        if tp in ("std::convert::From::from", "std::convert::Into::into") and len(args) == 1:
+            # newtype wrap/unwrap spelled as a conversion: render like the literal spelling (`CoinValue(x)` / `x.0`)
+            dt = self._place_type(t.get("dest"))
+            at = self._op_type(t["args"][0])
+            nt = NEWTYPES.get(at)
+            if nt and dt == nt[1]:
+                return mk_field(args[0], "0")
+        return simplify_call(path, args, tp)
+
+    def _place_type(self, pl):
+        if not pl:
+            return None
+        if pl["p"]:
+            last = pl["p"][-1]
+            return last.get("ty") if last["k"] == "field" else None
+        return self.locals[pl["l"]]["ty"]
+
+    def _op_type(self, op):
+        if op.get("k") in ("move", "copy"):
+            return self._place_type(op["place"])
+        if op.get("k") == "const":
+            return op.get("ty")
+        return None
 
     def rec_rvalue(self, rv, bb, idx, depth=0):
         k = rv["k"]
@@ -610,6 +637,14 @@ def _site_after(a, b):
 
 
 # ---------------------------------------------------------------------- expression constructors
+# single-field tuple structs whose `From`/`Into` impls only wrap / unwrap field 0 (derive_more in melstructs, newtypes in tmelcrypt)
+NEWTYPES = {
+    "melstructs::CoinValue": ("melstructs::CoinValue", "u128"),
+    "melstructs::BlockHeight": ("melstructs::BlockHeight", "u64"),
+    "melstructs::Address": ("melstructs::Address", "tmelcrypt::HashVal"),
+    "melstructs::TxHash": ("melstructs::TxHash", "tmelcrypt::HashVal"),
+    "tmelcrypt::HashVal": ("tmelcrypt::HashVal", "[u8; 32]"),
+}
 TRANSPARENT_CALLS = {
     # receiver-preserving adapters: value identity is what matters for provenance
     "std::clone::Clone::clone", "std::borrow::Borrow::borrow", "std::convert::AsRef::as_ref",
@@ -807,23 +842,48 @@ class Program:
         mp = os.path.join(facts_dir, "meta.json")
         if os.path.exists(mp):
             self.meta = json.load(open(mp))
+        crates = []
         for fn in sorted(os.listdir(facts_dir)):
             if not fn.endswith(".json") or fn == "meta.json":
                 continue
-            j = json.load(open(os.path.join(facts_dir, fn)))
+            crates.append(json.load(open(os.path.join(facts_dir, fn))))
+        # splice helper functions the rules do not know (not in the baseline inventory) into their callers
+        from . import inline as _inl
+        self.known = _inl.load_known() if os.environ.get("MELSTF_NO_INLINE") != "1" else None
+        self.inlined = _inl.inline_unknown(crates, self.known)
+        self.known_consts = set(self.known["consts"]) if self.known else None
+        fnrefs = set()
+        for j in crates:
+            for bj in j["bodies"]:
+                for blk in bj["blocks"]:
+                    for s_ in blk["stmts"]:
+                        rv = s_.get("rv") or {}
+                        for o in [rv.get("op"), rv.get("a"), rv.get("b")] + list(rv.get("ops", [])):
+                            if isinstance(o, dict) and o.get("k") == "const" and "fn" in o:
+                                fnrefs.add(o["fn"].get("resolved_id") or o["fn"].get("id"))
+                    t_ = blk["term"]
+                    if t_ and t_["k"] == "call":
+                        for o in t_["args"]:
+                            if isinstance(o, dict) and o.get("k") == "const" and "fn" in o:
+                                fnrefs.add(o["fn"].get("resolved_id") or o["fn"].get("id"))
+        for j in crates:
             crate = j["crate"]
             for bj in j["bodies"]:
                 b = Body(self, bj, crate)
-                self.bodies.append(b)
+                b.inlined_into = bj.get("inlined_into") or []
                 self.by_id[b.id] = b
                 self.by_nname[b.nname].append(b)
+                if b.inlined_into and b.id not in fnrefs:
+                    continue          # fully spliced into its callers: analysed there
+                self.bodies.append(b)
+        for j in crates:
             for k, v in j["adts"].items():
                 self.adts.setdefault(norm_name(k), v)
             self.items.extend(j["items"])
         self._cg = None
 
-    def promoted_body(self, body, idx):
-        pid = "%s::promoted[%d]" % (body.id if body.promoted is None else body.parent, idx)
+    def promoted_body(self, body, idx, owner=None):
+        pid = "%s::promoted[%d]" % (owner or (body.id if body.promoted is None else body.parent), idx)
         return self.by_id.get(pid)
 
     def body(self, nname):
@@ -840,7 +900,8 @@ class Program:
         return [b for b in self.bodies if b.kind in kinds and (b.nname == suffix or b.nname.endswith("::" + suffix))]
 
     def closures_of(self, body):
-        out = [b for b in self.bodies if b.kind == "Closure" and b.parent == body.id]
+        hosts = {body.id} | {h for h, callers in self.inlined.items() if body.id in callers}
+        out = [b for b in self.bodies if b.kind == "Closure" and b.parent in hosts]
         return sorted(out, key=lambda b: b.name)
 
     def all_nested(self, body):
